@@ -58,8 +58,12 @@ QMember(g) == g.uuid \in After.groups
 QueryUUIDs == {T.qgroups[i].uuid : i \in DOMAIN T.qgroups}
 \* whenever the engine hands the session back / after an effective modifier
 Applies == OK /\ (T.ev = "sprint" \/ T.modified)
+\* (matches: in the merged environment, matches_base: in the session's own - the engine uses the one when an action
+\* changes the contact and the other when a sprint starts, and the statement does not choose; they differ only for
+\* calendar-day conditions on contacts with a timezone of their own)
 MembershipOK == Applies => \A i \in DOMAIN T.qgroups :
-                   QMember(T.qgroups[i]) <=> (After.status = "active" /\ T.qgroups[i].matches)
+                   \/ QMember(T.qgroups[i]) <=> (After.status = "active" /\ T.qgroups[i].matches)
+                   \/ QMember(T.qgroups[i]) <=> (After.status = "active" /\ T.qgroups[i].matches_base)
 \* for the groups whose query the specification can evaluate on the projected contact, the verdict is the specification's
 \* own - the real evaluator is not trusted there ("tel != X" holds when every tel URN differs from X)
 RefMatch(g) == CASE g.ref = "nottel" -> \A i \in DOMAIN T.after.tels : T.after.tels[i] # g.arg
